@@ -61,6 +61,9 @@ def cases(tier, seed):
                 seen2.add(k2)
         out = pick
     out.sort(key=lambda c: (c["backend"], c["d"]))
+    for i, c in enumerate(out):
+        if i % 4 == 1:
+            c["bounds"] = "unit"
     return out
 
 
@@ -116,6 +119,10 @@ def build_flow(case, g, stage_untrained):
     F, fxp = get_flow_wrapper(backend)
     lo = np.array([float(g.uniform(-4, 0)) for _ in range(d)])
     hi = lo + np.array([float(g.uniform(2, 7)) for _ in range(d)])
+    if case.get("bounds") == "unit":
+        # intervals of width exactly one that do not start at zero (phases, fractions)
+        lo = np.array([float(g.choice([-0.5, 1.0, -3.0, 2.0])) for _ in range(d)])
+        hi = lo + 1.0
     params = ["width", "angle"][:d]  # declared order is not alphabetical; the two parameters have different bounds
     pb = {p: [float(lo[j]), float(hi[j])] for j, p in enumerate(params)}
     data = make_data(g, case["data"], d, lo, hi)
@@ -250,7 +257,7 @@ def run_case(case):
     counters = Counter({k: 0 for k in REQUIRED_COUNTERS})
     viol = []
     g = np.random.default_rng(case["seed"])
-    where = f"{case['backend']} bounded={case['bt']} affine={case['affine']} {case['dtype']} data={case['data']} d={case['d']}"
+    where = f"{case['backend']} bounded={case['bt']} affine={case['affine']} {case['dtype']} data={case['data']} d={case["d"]} bounds={case.get("bounds", "random")}"
     counters["configurations"] += 1
     integrals = {}
     # untrained (weights at initialisation, data transform fitted)
